@@ -815,7 +815,7 @@ OVF = 'Overflow.c'
 
 def rule_p1(ctx):
     cat = ctx.cat
-    r = Rule('C04-P1', 'every Overflow.c section is loaded with a context that binds all variables the template reads', floor=8)
+    r = Rule('C04-P1', 'every Overflow.c section is loaded with a context that binds all variables the template reads', floor=12)
     sites = P.load_sites(ctx, OVF)
     if not sites:
         raise AnalysisError('no load site of Overflow.c found')
@@ -975,7 +975,7 @@ CALLEE = re.compile(r'\b(__Pyx_[\w«»]*overflow[\w«»]*)\s*\(')
 
 def rule_name(ctx):
     ix, cat = ctx.index, ctx.cat
-    r = Rule('C04-NAME', 'the helper name overflow_check_binop returns, and every overflow helper the loaded templates call, is defined under every #if variant by a section loaded on the same path; helpers take (a, b, int *overflow)', floor=20)
+    r = Rule('C04-NAME', 'the helper name overflow_check_binop returns, and every overflow helper the loaded templates call, is defined under every #if variant by a section loaded on the same path; helpers take (a, b, int *overflow)', floor=50)
     m = ix.mod('PyrexTypes')
     numbinop = ix.cls('ExprNodes', 'NumBinopNode')
     names = P.literal_dict_attr(ix, numbinop, 'overflow_op_names')
